@@ -52,6 +52,8 @@ struct Observer {
     budget: u64,
     steps: u64,
     trace: Option<Vec<Step>>,
+    /// addresses of the instructions that failed so far (kept even without a trace)
+    error_pcs: Vec<usize>,
 }
 
 thread_local! {
@@ -89,6 +91,7 @@ pub fn on_instruction(pc: usize, depths: [usize; 7], context: &Context) {
 pub fn on_error(pc: usize, code: i32) {
     OBSERVER.with(|o| {
         if let Some(observer) = o.borrow_mut().as_mut() {
+            observer.error_pcs.push(pc);
             if let Some(trace) = observer.trace.as_mut() {
                 trace.push(Step {
                     pc,
@@ -100,6 +103,12 @@ pub fn on_error(pc: usize, code: i32) {
             }
         }
     });
+}
+
+/// The addresses of the instructions that have failed in the current (or, after a panic,
+/// the interrupted) run on this thread.
+pub fn error_pcs() -> Vec<usize> {
+    OBSERVER.with(|o| o.borrow().as_ref().map(|observer| observer.error_pcs.clone()).unwrap_or_default())
 }
 
 pub use crate::interpreter::main::verif_nearest_statement;
@@ -170,6 +179,8 @@ pub struct RunOutcome {
     pub trace: Option<Vec<Step>>,
     /// `(states, memory blocks)` of the context at the end of the run.
     pub final_context: (usize, usize),
+    /// Addresses of the instructions that failed during the run, in order.
+    pub error_pcs: Vec<usize>,
 }
 
 /// Runs the given instructions with in-memory devices.
@@ -187,6 +198,7 @@ pub fn run_in_memory(
             budget,
             steps: 0,
             trace: if with_trace { Some(vec![]) } else { None },
+            error_pcs: vec![],
         })
     });
     let mut interpreter = Interpreter::new(
@@ -198,9 +210,9 @@ pub fn run_in_memory(
         user_defined_types,
     );
     let result = interpreter.interpret(instruction_generator_result);
-    let (steps, trace) = OBSERVER.with(|o| {
+    let (steps, trace, error_pcs) = OBSERVER.with(|o| {
         let observer = o.borrow_mut().take().unwrap();
-        (observer.steps, observer.trace)
+        (observer.steps, observer.trace, observer.error_pcs)
     });
     let stdout = interpreter.stdout().verif_inner().clone();
     let lpt1 = interpreter.lpt1().verif_inner().clone();
@@ -217,5 +229,6 @@ pub fn run_in_memory(
         steps,
         trace,
         final_context,
+        error_pcs,
     }
 }
